@@ -326,6 +326,9 @@ def lookup_part(job, r):
         npub = rng.choice([0, 1, 2, 3, 5, 8])
         base = rng.randrange(1200000000, 1600000000)
         times = [base + rng.choice([0, 1, 2, 10, 86400, 2 * 86400]) * rng.randint(0, 3) for _ in range(npub)]
+        if npub and i % 4 == 1:
+            # times from the whole 64-bit range: on both sides of 2^31, 2^32, 2^63
+            times = [rng.choice([0, 1, 255, 256, 2 ** 31 - 1, 2 ** 31, 2 ** 32 - 1, 2 ** 32, 2 ** 32 + 255, 2 ** 40, 2 ** 63 - 1, 2 ** 63, 2 ** 63 + 1, 2 ** 64 - 16, 2 ** 64 - 1, base]) for _ in range(npub)]
         pubs = [(t, gen.rnd_imprint(rng, 1)) for t in times]
         if rng.random() < 0.5:
             pubs.sort()
@@ -336,7 +339,7 @@ def lookup_part(job, r):
         if q.rc != 0:
             r.viol('structure:valid-file-rejected', 'file rejected rc=%#x' % q.rc, raw.hex())
             continue
-        qs = sorted(set([0, 1, base - 1, base, base + 1, 2 ** 32, 2 ** 63] + [t + d for t in times for d in (-1, 0, 1)] + [rng.randrange(base - 10, base + 3 * 86400 * 3) for _ in range(4)]))
+        qs = sorted(set([0, 1, base - 1, base, base + 1, 2 ** 31, 2 ** 32, 2 ** 63 - 1, 2 ** 63, 2 ** 64 - 1] + [t + d for t in times for d in (-1, 0, 1) if 0 <= t + d < 2 ** 64] + [rng.randrange(base - 10, base + 3 * 86400 * 3) for _ in range(4)]))
         for t in qs:
             if t < 0:
                 continue
